@@ -513,6 +513,23 @@ func syscalls() {
 				rep("syscall-reverse-table:"+arch, "building -S %s for %s does not set exactly bit %d", name, arch, nr)
 				continue
 			}
+			// the name belongs to the architecture the rule NAMES, also when the arch filter is negated (auditctl
+			// resolves -S names against the last -F arch it saw, whatever the operator)
+			if w2, err := buildLine("-a always,exit -F arch!=" + arch + " -S " + name); err == nil {
+				for word := 0; word < 64; word++ {
+					want := uint32(0)
+					if word == nr/32 {
+						want = 1 << uint(nr%32)
+					}
+					if u32(w2, 12+4*word) != want {
+						ok = false
+					}
+				}
+				if !ok {
+					rep("syscall-reverse-table-negated-arch:"+arch, "building -F arch!=%s -S %s does not set exactly bit %d of the %s table", arch, name, nr, arch)
+					continue
+				}
+			}
 			nontriv++
 		}
 	}
